@@ -22,7 +22,9 @@ RULE = ('vsched harness (real pthreads, one baton; every pthread_mutex_*/cond_* 
 ASSUME = ['vsched models pthread semantics (spurious wake-ups allowed, signal wakes any one waiter, timedwait may time out at any '
           'point); liveness is a scheduler choice, not real time', 'the search samples schedules; it does not enumerate them']
 
-ADDR_SETS = [[64, 64 + 4096, 64 + 8192, 128], [8, 1032 * 4 + 8 - 4096 + 4096, 200, 2056 * 4 + 8], [0, 4096, 8192, 12288], [40, 48, 4136, 56]]
+ADDR_SETS = [[64, 64 + 4096, 64 + 8192, 128], [8, 1032 * 4 + 8 - 4096 + 4096, 200, 2056 * 4 + 8], [0, 4096, 8192, 12288], [40, 48, 4136, 56],
+             # effective address (operand + static offset 16) in the last 8 bytes of the first page = end of the initial memory
+             [65536 - 8 - 16, 64, 65536 - 8 - 16 - 4096]]
 
 
 VALS64 = (0, 0, 0, 1, 7, 1 << 32, 1 << 32, (1 << 32) | 1, 7 << 32, 1 << 63)
